@@ -56,8 +56,15 @@ def judge(ctx, p, q, occ, P=None, kind="state", Q=None):
             return
 
 
+def weak_hash_events(ctx):
+    """Run in the weak-hash interpreter (harness/weakhash.py): the hardening events, recorded where permutations share a few hash values."""
+    ctx.tier = "quick"
+    return [e for e in hardening_events(ctx, True) if e["op"] != "LongPred"]
+
+
 def run(ctx):
     quick = ctx.tier == "quick"
+    weak = util.weak_hash_start(ctx, "c01", "weak_hash_events")
     maxpatt, maxperm = (3, 6) if quick else (4, 7)
     nsh = 8 if quick else 16
     # ---- 1. exhaustive input universe, sharded -----------------------------------
@@ -257,6 +264,7 @@ def run(ctx):
                             events.append({"op": "Col", "p": list(p), "q": list(q), "cp": list(cp), "cq": list(cq), "res": res})
     nextra = len(events)
     events.extend(hardening_events(ctx, quick))
+    events.extend(util.weak_hash_finish(ctx, weak, "c01"))
     ctx.note("hardening_events", len(events) - nextra)
     v = util.validate_trace(ctx, "Trace_C01", events, invariants=INVS,
                             constants={"MinPatt": 0, "MaxPatt": 0, "MinPerm": 0, "MaxPerm": 0, "Shard": 0, "NShards": 1, "Colours": "{0, 1}"},
